@@ -3,7 +3,7 @@ import random
 
 import numpy as np
 
-NAMES_PLAIN = ["a", "b", "c", "n1", "n2", "x y", "Zeta", "alpha", "10", "9", "ünï", "d.e", "k-positions"]
+NAMES_PLAIN = ["a", "b", "c", "n1", "n2", "x y", "Zeta", "alpha", "10", "9", "ünï", "d.e", "k-positions", "k-extents", "k"]
 NAMES_ORDER = ["zz", "z", "y", "10", "9", "1", "B", "a", "A", " ", "ünï-ço∂é", "名前", "a" * 300,
                "a.b", "-", "_", "..x", "x..", "metadata", "data", "name", "sections"]
 NAMES_UUIDLIKE = ["4f5d3a1e-8c2b-4e7a-9b1d-0a1b2c3d4e5f", "0123456789abcdef0123456789abcdef",
